@@ -108,11 +108,138 @@ theorem getBranches_eq (ids pids : List Int) (r : Rose) (h : Represents r ids pi
   rw [h3]
   rfl
 
+theorem pairs_cons_cons (a b : Int) (t : List Int) : pairs (a :: b :: t) = (a, b) :: pairs (b :: t) := rfl
+
+/-- the open chain of a subtree ends (bottom-up) at the subtree's root -/
+theorem bv_child (r : Rose) : ∃ t, (branchVal r).2 = t ++ [r.id] := by
+  cases r with
+  | node i ks =>
+    rw [branchVal_node]
+    rcases ks with _ | ⟨k, _ | ⟨k2, t⟩⟩
+    · exact ⟨[], rfl⟩
+    · exact ⟨(branchVal k).2, by simp [cb_one, Rose.id]⟩
+    · exact ⟨[], rfl⟩
+
+theorem bv_child_ne (r : Rose) : (branchVal r).2 ≠ [] := by
+  obtain ⟨t, ht⟩ := bv_child r
+  rw [ht]; simp
+
+/-- closing one kid's value at node `i` -/
+abbrev closeAt (i : Int) : BVal → List (List Int) := fun sc => (sc.1 ++ [(sc.2 ++ [i]).reverse]).reverse
+
+theorem branchVal_many (i : Int) (k1 k2 : Rose) (t : List Rose) :
+    branchVal (.node i (k1 :: k2 :: t)) = (((k1 :: k2 :: t).map branchVal).flatMap (closeAt i), [i]) := by
+  rw [branchVal_node]; rfl
+
+/-- edge invariant of the open-chain value -/
+def EdgeInv (r : Rose) : Prop :=
+  ((branchVal r).1.flatMap pairs ++ pairs (branchVal r).2.reverse).Perm (edges r)
+
+theorem edge_aux (i : Int) (ks : List Rose) (ih : ∀ k ∈ ks, EdgeInv k) :
+    (((ks.map branchVal).flatMap (closeAt i)).flatMap pairs).Perm
+      (ks.map (fun k => (i, k.id)) ++ ks.flatMap edges) := by
+  induction ks with
+  | nil => simp
+  | cons k ks ihl =>
+    have h1 := ihl (fun k' hk' => ih k' (List.mem_cons_of_mem _ hk'))
+    have h2 : EdgeInv k := ih k (List.mem_cons_self ..)
+    obtain ⟨t, ht⟩ := bv_child k
+    simp only [EdgeInv, ht, List.reverse_append, List.reverse_cons, List.reverse_nil, List.nil_append,
+      List.singleton_append] at h2
+    rw [List.perm_iff_count]; intro a
+    have c1 := h1.count_eq a
+    have c2 := h2.count_eq a
+    have c3 := ((List.reverse_perm ((branchVal k).1 ++ [((branchVal k).2 ++ [i]).reverse])).flatMap_right pairs).count_eq a
+    simp only [List.map_cons, List.flatMap_cons, List.flatMap_append, List.count_append, closeAt] at c1 c2 ⊢
+    rw [c3]
+    simp only [List.flatMap_append, List.flatMap_cons, List.flatMap_nil, List.append_nil, ht,
+      List.reverse_append, List.reverse_cons, List.reverse_nil, List.nil_append,
+      List.cons_append, pairs_cons_cons, List.count_append, List.count_cons] at c1 c2 ⊢
+    omega
+
+theorem edgeInv_all (r : Rose) : EdgeInv r := by
+  induction r using rose_ind with
+  | h i ks ih =>
+    rcases ks with _ | ⟨k, _ | ⟨k2, t⟩⟩
+    · simp [EdgeInv, branchVal_node, cb_nil, pairs, edges, edgesL]
+    · have h2 : EdgeInv k := ih k (List.mem_cons_self ..)
+      obtain ⟨t, ht⟩ := bv_child k
+      simp only [EdgeInv, ht, List.reverse_append, List.reverse_cons, List.reverse_nil, List.nil_append,
+        List.singleton_append] at h2
+      simp only [EdgeInv, branchVal_node, List.map_cons, List.map_nil, cb_one, ht, edges, edgesL,
+        List.reverse_append, List.reverse_cons, List.reverse_nil, List.nil_append,
+        List.cons_append, pairs_cons_cons, List.append_nil]
+      rw [List.perm_iff_count]; intro a
+      have c2 := h2.count_eq a
+      simp only [List.count_append, List.count_cons] at c2 ⊢
+      omega
+    · have := edge_aux i (k :: k2 :: t) ih
+      simp only [EdgeInv, branchVal_many, edges, edgesL_eq]
+      simpa [pairs] using this
+
 /-- **The branches partition the edges**: listing the consecutive node pairs of all branches gives every
 parent–child edge of the tree exactly once (a permutation of the edge list). -/
 theorem branches_partition_edges (r : Rose) :
     ((branchesOf r).flatMap pairs).Perm (edges r) := by
-  sorry
+  have h := edgeInv_all r
+  simp only [EdgeInv] at h
+  simp only [branchesOf, finish]
+  split
+  · simp only [List.flatMap_cons]
+    exact List.perm_append_comm.trans h
+  · rename_i hlen
+    obtain ⟨t, ht⟩ := bv_child r
+    have : t = [] := by
+      cases t with
+      | nil => rfl
+      | cons a t => rw [ht] at hlen; simp at hlen
+    subst this
+    rw [ht] at h
+    simpa [pairs] using h
+
+/-- a top-down chain of pass-through nodes ending in a tip or furcation -/
+def ChainOK (kidsOf : Int → List Int) (c : List Int) : Prop :=
+  ∃ mid last, c = mid ++ [last] ∧ (∀ m ∈ mid, (kidsOf m).length = 1) ∧
+    ((kidsOf last).length = 0 ∨ 2 ≤ (kidsOf last).length)
+/-- a closed branch hanging from a furcation -/
+def ShapeOK (kidsOf : Int → List Int) (b : List Int) : Prop :=
+  ∃ top c, b = top :: c ∧ 2 ≤ (kidsOf top).length ∧ ChainOK kidsOf c
+
+theorem shape_all (kidsOf : Int → List Int) (r : Rose) : Agrees kidsOf r →
+    (∀ b ∈ (branchVal r).1, ShapeOK kidsOf b) ∧ ChainOK kidsOf (branchVal r).2.reverse := by
+  induction r using rose_ind with
+  | h i ks ih =>
+    intro hA
+    simp only [Agrees] at hA
+    obtain ⟨hk, hAL⟩ := hA
+    rw [agreesL_iff] at hAL
+    have hlen : (kidsOf i).length = ks.length := by rw [hk]; simp
+    rcases ks with _ | ⟨k, _ | ⟨k2, t⟩⟩
+    · refine ⟨by simp [branchVal_node, cb_nil], ?_⟩
+      simp only [branchVal_node, List.map_nil, cb_nil, List.reverse_cons, List.reverse_nil, List.nil_append]
+      exact ⟨[], i, rfl, by simp, Or.inl (by simpa using hlen)⟩
+    · have hk' := ih k (List.mem_cons_self ..) (hAL k (List.mem_cons_self ..))
+      simp only [branchVal_node, List.map_cons, List.map_nil, cb_one]
+      refine ⟨hk'.1, ?_⟩
+      obtain ⟨mid, last, hc, hm, hl⟩ := hk'.2
+      refine ⟨i :: mid, last, by simp [hc], ?_, hl⟩
+      intro m hmem
+      simp only [List.mem_cons] at hmem
+      rcases hmem with rfl | hmem
+      · simpa using hlen
+      · exact hm m hmem
+    · have h2 : 2 ≤ (kidsOf i).length := by rw [hlen]; simp
+      rw [branchVal_many]
+      constructor
+      · intro b hb
+        simp only [List.mem_flatMap, List.mem_map, closeAt] at hb
+        obtain ⟨sc, ⟨k', hk', rfl⟩, hb⟩ := hb
+        have hk'' := ih k' hk' (hAL k' hk')
+        simp only [List.mem_reverse, List.mem_append, List.mem_singleton] at hb
+        rcases hb with hb | rfl
+        · exact hk''.1 b hb
+        · exact ⟨i, (branchVal k').2.reverse, by simp, h2, hk''.2⟩
+      · exact ⟨[], i, rfl, by simp, Or.inr h2⟩
 
 /-- **Shape of every branch**: it has at least two nodes, starts at the root or at a furcation, ends at a
 furcation or a tip, and has only pass-through (one-child) nodes in between. -/
@@ -121,14 +248,145 @@ theorem branch_shape (kidsOf : Int → List Int) (r : Rose) (hA : Agrees kidsOf 
       (top = r.id ∨ 2 ≤ (kidsOf top).length) ∧
       (∀ m ∈ mid, (kidsOf m).length = 1) ∧
       ((kidsOf last).length = 0 ∨ 2 ≤ (kidsOf last).length) := by
-  sorry
+  obtain ⟨hbrs, hch⟩ := shape_all kidsOf r hA
+  have hclosed : ∀ b ∈ (branchVal r).1, ∃ top mid last, b = top :: (mid ++ [last]) ∧
+      (top = r.id ∨ 2 ≤ (kidsOf top).length) ∧
+      (∀ m ∈ mid, (kidsOf m).length = 1) ∧
+      ((kidsOf last).length = 0 ∨ 2 ≤ (kidsOf last).length) := by
+    intro b hb
+    obtain ⟨top, c, rfl, h2, mid, last, rfl, hm, hl⟩ := hbrs b hb
+    exact ⟨top, mid, last, rfl, Or.inr h2, hm, hl⟩
+  simp only [branchesOf, finish] at hb
+  split at hb
+  · rename_i hlen
+    simp only [List.mem_cons] at hb
+    rcases hb with rfl | hb
+    · obtain ⟨mid, last, hc, hm, hl⟩ := hch
+      obtain ⟨t, ht⟩ := bv_child r
+      rw [ht] at hc hlen
+      simp only [List.reverse_append, List.reverse_cons, List.reverse_nil, List.nil_append,
+        List.singleton_append] at hc
+      cases mid with
+      | nil =>
+        simp only [List.nil_append, List.cons.injEq, List.reverse_eq_nil_iff] at hc
+        rw [hc.2] at hlen; simp at hlen
+      | cons m mid' =>
+        simp only [List.cons_append, List.cons.injEq] at hc
+        refine ⟨r.id, mid', last, ?_, Or.inl rfl, fun m' hm' => hm m' (List.mem_cons_of_mem _ hm'), hl⟩
+        rw [ht]; simp [hc.2]
+    · exact hclosed b hb
+  · exact hclosed b hb
+
+theorem lastD_close (l : List Int) (hne : l ≠ []) (i d : Int) : ((l ++ [i]).reverse).getLastD d = l.headD 0 := by
+  cases l with
+  | nil => exact absurd rfl hne
+  | cons a t =>
+    have : ((a :: t) ++ [i]).reverse = (i :: t.reverse) ++ [a] := by simp
+    rw [this, List.getLastD_eq_getLast?, List.getLast?_append]; simp
+theorem headD_append_ne (l : List Int) (hne : l ≠ []) (i : Int) : (l ++ [i]).headD 0 = l.headD 0 := by
+  cases l with
+  | nil => exact absurd rfl hne
+  | cons a t => simp
+
+theorem furcs_sub_ids (r : Rose) : ∀ j ∈ furcsOf r, j ∈ r.ids := by
+  induction r using rose_ind with
+  | h i ks ih =>
+    intro j hj
+    simp only [furcsOf, furcsOfL_eq, List.mem_append, List.mem_flatMap] at hj
+    simp only [Rose.ids, idsL_eq, List.mem_cons, List.mem_flatMap]
+    rcases hj with hj | ⟨k, hk, hj⟩
+    · split at hj
+      · left; simpa using hj
+      · simp at hj
+    · exact Or.inr ⟨k, hk, ih k hk j hj⟩
+theorem tips_sub_ids (r : Rose) : ∀ j ∈ tipsOf r, j ∈ r.ids := by
+  induction r using rose_ind with
+  | h i ks ih =>
+    intro j hj
+    cases ks with
+    | nil => simp only [tipsOf, List.mem_singleton] at hj; simp [Rose.ids, hj]
+    | cons k ks' =>
+      simp only [tipsOf, tipsOfL_eq, List.mem_flatMap] at hj
+      simp only [Rose.ids, idsL_eq, List.mem_cons, List.mem_flatMap]
+      obtain ⟨k', hk', hj⟩ := hj
+      exact Or.inr ⟨k', List.mem_cons.1 hk', ih k' hk' j hj⟩
+
+/-- end-point invariant: last nodes of the closed branches, plus the bottom of the open chain, are the
+furcations and tips of the subtree -/
+def EndInv (r : Rose) : Prop :=
+  ∀ d, ((branchVal r).1.map (fun b => b.getLastD d) ++ [(branchVal r).2.headD 0]).Perm (furcsOf r ++ tipsOf r)
+
+theorem end_aux (i d : Int) (ks : List Rose) (ih : ∀ k ∈ ks, EndInv k) :
+    (((ks.map branchVal).flatMap (closeAt i)).map (fun b => b.getLastD d)).Perm
+      (ks.flatMap furcsOf ++ ks.flatMap tipsOf) := by
+  induction ks with
+  | nil => simp
+  | cons k ks ihl =>
+    have h1 := ihl (fun k' hk' => ih k' (List.mem_cons_of_mem _ hk'))
+    have h2 := ih k (List.mem_cons_self ..) d
+    rw [List.perm_iff_count]; intro a
+    have c1 := h1.count_eq a
+    have c2 := h2.count_eq a
+    have c3 := ((List.reverse_perm ((branchVal k).1 ++ [((branchVal k).2 ++ [i]).reverse])).map
+      (fun b => b.getLastD d)).count_eq a
+    simp only [List.map_cons, List.flatMap_cons, List.map_append, List.count_append, closeAt] at c1 c2 ⊢
+    rw [c3]
+    simp only [List.map_append, List.map_cons, List.map_nil, lastD_close _ (bv_child_ne k),
+      List.count_append] at c2 ⊢
+    omega
+
+theorem endInv_all (r : Rose) : EndInv r := by
+  induction r using rose_ind with
+  | h i ks ih =>
+    intro d
+    rcases ks with _ | ⟨k, _ | ⟨k2, t⟩⟩
+    · simp [branchVal_node, cb_nil, furcsOf, furcsOfL, tipsOf]
+    · have h2 := ih k (List.mem_cons_self ..) d
+      simp only [branchVal_node, List.map_cons, List.map_nil, cb_one, headD_append_ne _ (bv_child_ne k),
+        furcsOf, furcsOfL, tipsOf, tipsOfL]
+      simpa using h2
+    · have := end_aux i d (k :: k2 :: t) ih
+      rw [branchVal_many]
+      simp only [furcsOf, furcsOfL_eq, tipsOf, tipsOfL_eq, List.headD_cons]
+      rw [List.perm_iff_count]; intro a
+      have c := this.count_eq a
+      simp only [List.count_append, List.length_cons] at c ⊢
+      rw [if_pos (by omega)]
+      omega
 
 /-- the end points of the branches are exactly the non-root furcations and tips, each once
 (so `BranchTree.from_tree` keeps exactly root ∪ furcations ∪ tips) -/
 theorem branch_ends (r : Rose) (hD : r.ids.Nodup) :
     ((branchesOf r).map (fun b => b.getLastD r.id)).Perm
       ((furcsOf r ++ tipsOf r).erase r.id) := by
-  sorry
+  have hE := endInv_all r r.id
+  cases r with
+  | node i ks =>
+    simp only [Rose.id] at hE ⊢
+    rcases ks with _ | ⟨k, _ | ⟨k2, t⟩⟩
+    · simp [branchesOf, finish, branchVal_node, cb_nil, furcsOf, furcsOfL, tipsOf]
+    · -- the root has one kid: its chain is closed by `finish`; the root is neither furcation nor tip
+      have hne := bv_child_ne k
+      have hlen : ((branchVal k).2 ++ [i]).length > 1 := by
+        have : (branchVal k).2.length ≠ 0 := by simpa using hne
+        simp; omega
+      have hi : i ∉ furcsOf (.node i [k]) ++ tipsOf (.node i [k]) := by
+        simp only [Rose.ids, idsL, List.append_nil, List.nodup_cons] at hD
+        simp only [furcsOf, furcsOfL, tipsOf, tipsOfL, List.length_cons, List.length_nil, List.append_nil,
+          List.mem_append, not_or]
+        exact ⟨by simpa using fun h => hD.1 (furcs_sub_ids k i h), fun h => hD.1 (tips_sub_ids k i h)⟩
+      rw [List.erase_of_not_mem hi]
+      simp only [branchVal_node, List.map_cons, List.map_nil, cb_one, headD_append_ne _ hne] at hE
+      simp only [branchesOf, finish, branchVal_node, List.map_cons, List.map_nil, cb_one, if_pos hlen,
+        lastD_close _ hne]
+      simpa using List.perm_append_comm.trans hE
+    · rw [branchVal_many] at hE
+      simp only [List.headD_cons] at hE
+      have hfin : branchesOf (.node i (k :: k2 :: t)) = (((k :: k2 :: t).map branchVal).flatMap (closeAt i)) := by
+        simp [branchesOf, finish, branchVal_many]
+      rw [hfin]
+      have h1 := (List.perm_append_comm.trans hE).erase i
+      simpa using h1
 
 /-- `get_paths` of a rose -/
 def pathsOf (r : Rose) : List (List Int) := (spec pEnter pLeave r none (fun _ => none)).2
@@ -141,12 +399,90 @@ theorem getPaths_eq (ids pids : List Int) (r : Rose) (h : Represents r ids pids)
   rw [h3]
   rfl
 
+-- the root-to-tip paths below a node reached along `pre` (structural recursion)
+mutual
+def pathsFrom : Rose → List Int → List (List Int)
+  | .node i [], pre => [pre ++ [i]]
+  | .node i (k :: ks), pre => pathsFromL (k :: ks) (pre ++ [i])
+def pathsFromL : List Rose → List Int → List (List Int)
+  | [], _ => []
+  | r :: rs, pre => pathsFrom r pre ++ pathsFromL rs pre
+end
+
+theorem pathsFromL_eq (ks : List Rose) (pre : List Int) :
+    pathsFromL ks pre = ks.flatMap (fun k => pathsFrom k pre) := by
+  induction ks with
+  | nil => simp [pathsFromL]
+  | cons r rs ih => simp [pathsFromL, ih]
+
+mutual
+theorem spec_p : ∀ (r : Rose) (pv : Option (List Int)) (d : PDict),
+    (spec pEnter pLeave r pv d).2 = pathsFrom r (pv.getD [])
+  | .node i [], pv, d => by
+    simp [spec, specRev, pEnter, pLeave, pathsFrom, upd]
+  | .node i (k :: ks), pv, d => by
+    have h := specRev_p (k :: ks) (pv.getD [] ++ [i]) (upd d i (some (pv.getD [] ++ [i])))
+    simp only [spec, pEnter, pathsFrom]
+    rw [← h]
+    simp only [specRev, pLeave]
+theorem specRev_p : ∀ (ks : List Rose) (cur : List Int) (d : PDict),
+    (specRev pEnter pLeave ks cur d).2.flatten = pathsFromL ks cur
+  | [], _, _ => by simp [specRev, pathsFromL]
+  | r :: rs, cur, d => by
+    simp only [specRev, pathsFromL, List.flatten_cons]
+    rw [specRev_p rs cur d, spec_p r (some cur)]
+    simp
+end
+
+theorem pathsOf_eq (r : Rose) : pathsOf r = pathsFrom r [] := by
+  simp [pathsOf, spec_p]
+
+theorem pathsFrom_last (d : Int) (r : Rose) : ∀ pre, (pathsFrom r pre).map (fun p => p.getLastD d) = tipsOf r := by
+  induction r using rose_ind with
+  | h i ks ih =>
+    intro pre
+    cases ks with
+    | nil => simp [pathsFrom, tipsOf]
+    | cons k ks' =>
+      simp only [pathsFrom, tipsOf, pathsFromL_eq, tipsOfL_eq, List.map_flatMap]
+      exact List.flatMap_congr (fun k' hk' => ih k' hk' _)
+
+theorem pathsFrom_edges (r : Rose) : ∀ pre, ∀ p ∈ pathsFrom r pre,
+    ∃ q, p = pre ++ q ∧ q.head? = some r.id ∧ ∀ e ∈ pairs q, e ∈ edges r := by
+  induction r using rose_ind with
+  | h i ks ih =>
+    intro pre p hp
+    cases ks with
+    | nil =>
+      simp only [pathsFrom, List.mem_singleton] at hp
+      exact ⟨[i], hp, rfl, by simp [pairs]⟩
+    | cons k ks' =>
+      simp only [pathsFrom, pathsFromL_eq, List.mem_flatMap] at hp
+      obtain ⟨k', hk', hp⟩ := hp
+      obtain ⟨q, rfl, hq, he⟩ := ih k' hk' _ p hp
+      refine ⟨i :: q, by simp, rfl, ?_⟩
+      cases q with
+      | nil => simp at hq
+      | cons a q' =>
+        simp only [List.head?_cons, Option.some.injEq] at hq
+        subst hq
+        intro e hmem
+        simp only [pairs, List.mem_cons] at hmem
+        simp only [edges, edgesL_eq, List.mem_append, List.mem_map, List.mem_flatMap]
+        rcases hmem with rfl | hmem
+        · exact Or.inl ⟨k', hk', rfl⟩
+        · exact Or.inr ⟨k', hk', he e hmem⟩
+
 /-- **exactly one root-to-tip path per tip**: the paths' end points are the tips, in order, each path
 starts at the root and runs along parent–child edges -/
 theorem paths_one_per_tip (r : Rose) :
     (pathsOf r).map (fun p => p.getLastD r.id) = tipsOf r ∧
     (∀ p ∈ pathsOf r, p.head? = some r.id ∧ ∀ e ∈ pairs p, e ∈ edges r) := by
-  sorry
+  rw [pathsOf_eq]
+  refine ⟨pathsFrom_last r.id r [], ?_⟩
+  intro p hp
+  obtain ⟨q, rfl, h1, h2⟩ := pathsFrom_edges r [] p hp
+  exact ⟨by simpa using h1, by simpa using h2⟩
 
 theorem tableKids_nil_iff : ∀ (ids pids : List Int), ids.length = pids.length →
     ∀ j, tableKids ids pids j = [] ↔ j ∉ pids
@@ -184,14 +520,42 @@ theorem tipsOf_childless (kidsOf : Int → List Int) (r : Rose) (hA : Agrees kid
       · rintro rfl; exact ⟨rfl, by simpa using hk⟩
       · exact fun h => h.1
     | cons k ks' =>
+      have hne : (k :: ks').map Rose.id ≠ [] := by simp
       simp only [tipsOf, tipsOfL_eq, Rose.ids, idsL_eq, List.mem_flatMap, List.mem_cons]
       constructor
       · rintro ⟨k', hk', hj⟩
-        have := (ih k' hk' (hAL k' hk') j).1 hj
+        have hk'' := List.mem_cons.2 hk'
+        have := (ih k' hk'' (hAL k' hk'') j).1 hj
         exact ⟨Or.inr ⟨k', hk', this.1⟩, this.2⟩
       · rintro ⟨hj | ⟨k', hk', hj⟩, h0⟩
-        · subst hj; rw [hk] at h0; simp at h0
-        · exact ⟨k', hk', (ih k' hk' (hAL k' hk') j).2 ⟨hj, h0⟩⟩
+        · subst hj; rw [hk] at h0; exact absurd h0 hne
+        · have hk'' := List.mem_cons.2 hk'
+          exact ⟨k', hk', (ih k' hk'' (hAL k' hk'') j).2 ⟨hj, h0⟩⟩
+
+theorem furcsOf_ge2_aux (kidsOf : Int → List Int) (r : Rose) (hA : Agrees kidsOf r) (j : Int) :
+    j ∈ furcsOf r ↔ j ∈ r.ids ∧ 2 ≤ (kidsOf j).length := by
+  revert hA j
+  induction r using rose_ind with
+  | h i ks ih =>
+    intro hA j
+    simp only [Agrees] at hA
+    obtain ⟨hk, hAL⟩ := hA
+    rw [agreesL_iff] at hAL
+    have hlen : (kidsOf i).length = ks.length := by rw [hk]; simp
+    simp only [furcsOf, furcsOfL_eq, Rose.ids, idsL_eq, List.mem_append, List.mem_flatMap, List.mem_cons]
+    constructor
+    · rintro (hj | ⟨k', hk', hj⟩)
+      · split at hj
+        · simp only [List.mem_singleton] at hj
+          subst hj; exact ⟨Or.inl rfl, by omega⟩
+        · simp at hj
+      · have := (ih k' hk' (hAL k' hk') j).1 hj
+        exact ⟨Or.inr ⟨k', hk', this.1⟩, this.2⟩
+    · rintro ⟨hj | ⟨k', hk', hj⟩, h2⟩
+      · subst hj
+        left
+        rw [if_pos (by omega)]; simp
+      · exact Or.inr ⟨k', hk', (ih k' hk' (hAL k' hk') j).2 ⟨hj, h2⟩⟩
 
 theorem specRev_len {σ T K : Type} (enter : σ → Int → Option T → σ × T) (leave : σ → Int → List K → σ × K) :
     ∀ (ks : List Rose) (cur : T) (s : σ), (specRev enter leave ks cur s).2.length = ks.length
@@ -205,7 +569,7 @@ theorem spec_f : ∀ (r : Rose) (pv : Option Unit) (acc : List Int),
   | .node i ks, pv, acc => by
     simp only [spec, fEnter, fLeave, furcsOf]
     have h := specRev_f ks () acc
-    rw [specRev_len]
+    simp only [specRev_len]
     split
     · refine (h.append_right [i]).trans ?_
       rw [List.perm_iff_count]; intro a
@@ -234,29 +598,8 @@ theorem furcations_eq (ids pids : List Int) (r : Rose) (h : Represents r ids pid
 
 theorem furcsOf_ge2 (kidsOf : Int → List Int) (r : Rose) (hA : Agrees kidsOf r) (hD : r.ids.Nodup) (j : Int) :
     j ∈ furcsOf r ↔ j ∈ r.ids ∧ 2 ≤ (kidsOf j).length := by
-  clear hD
-  revert hA j
-  induction r using rose_ind with
-  | h i ks ih =>
-    intro hA j
-    simp only [Agrees] at hA
-    obtain ⟨hk, hAL⟩ := hA
-    rw [agreesL_iff] at hAL
-    have hlen : (kidsOf i).length = ks.length := by rw [hk]; simp
-    simp only [furcsOf, furcsOfL_eq, Rose.ids, idsL_eq, List.mem_append, List.mem_flatMap, List.mem_cons]
-    constructor
-    · rintro (hj | ⟨k', hk', hj⟩)
-      · split at hj
-        · simp only [List.mem_singleton] at hj
-          subst hj; exact ⟨Or.inl rfl, by omega⟩
-        · simp at hj
-      · have := (ih k' hk' (hAL k' hk') j).1 hj
-        exact ⟨Or.inr ⟨k', hk', this.1⟩, this.2⟩
-    · rintro ⟨hj | ⟨k', hk', hj⟩, h2⟩
-      · subst hj
-        left
-        rw [if_pos (by omega)]; simp
-      · exact Or.inr ⟨k', hk', (ih k' hk' (hAL k' hk') j).2 ⟨hj, h2⟩⟩
+  have _ := hD
+  exact furcsOf_ge2_aux kidsOf r hA j
 
 /-- **the branch tree's table**: one node for the root and one per branch end; each hangs from the
 head of its branch — i.e. nodes = root ∪ furcations ∪ tips joined as the branches join them -/
